@@ -5,6 +5,7 @@ import (
 	"regexp"
 	"sort"
 	"strings"
+	"sync"
 	"sync/atomic"
 
 	"github.com/sarchlab/mgpusim/v4/amd/insts"
@@ -26,9 +27,9 @@ type task struct {
 	post, got, dev                isaspec.State
 
 	evals, tuples, skipped, mism int64
-	notImpl bool
-	panics  int64
-	sample  map[string]any
+	notImpl                      bool
+	panics                       int64
+	sample                       map[string]any
 }
 
 func encFmt(e *isaspec.Entry, in *isaspec.Instr) string {
@@ -54,7 +55,7 @@ func decodeSafe(d *insts.Disassembler, b []byte) (inst *insts.Inst, err error) {
 	return d.Decode(buf)
 }
 
-var notImplRe = regexp.MustCompile(`is not implemented|not implemented|Inst format .* is not supported`)
+var notImplRe = regexp.MustCompile(`is not implemented|not implemented|Inst format .* is not supported|modifiers are not supported`)
 
 func newTask(ar *archRun, w *worker, f isaspec.Form) *task {
 	in, err := isaspec.Parse(f.Text)
@@ -156,10 +157,15 @@ func (t *task) evalOnce(pre *isaspec.State, verbose bool) []string {
 	}
 	sigs, msg := t.classify(pre, x, pm, stray)
 	for _, s := range sigs {
-		run.Report(s, msg, makeReplay(t.ar.arch, t.form, pre))
+		if _, dup := reported.LoadOrStore(s, true); dup && !verbose {
+			continue
+		}
+		m := msg()
+		recordFinding(s, m)
+		run.Report(s, m, makeReplay(t.ar.arch, t.form, pre))
 	}
 	if verbose {
-		fmt.Println(msg)
+		fmt.Println(msg())
 	}
 	return sigs
 }
@@ -171,6 +177,8 @@ func popcount(v uint64) int {
 	}
 	return n
 }
+
+var reported sync.Map // signatures already handed to the harness
 
 var regTypeRe = regexp.MustCompile(`Register type (\S+) not supported`)
 var digitsRe = regexp.MustCompile(`0x[0-9a-fA-F]+|[0-9]+`)
@@ -259,26 +267,137 @@ func (t *task) category(comp string, pre *isaspec.State) string {
 	return "frame-vgpr"
 }
 
-// classify turns a disagreement into signatures (one per wrong component).
-func (t *task) classify(pre *isaspec.State, x *isaspec.Expect, pm, stray string) ([]string, string) {
+// quirkSigs lists the register-file deviations that an instruction's operands can trigger.
+func quirksFor(in *isaspec.Instr, e *isaspec.Entry) (q int, sigs []string) {
+	for i, o := range in.Ops {
+		if i >= len(e.Pat) {
+			break
+		}
+		r := e.Pat[i]
+		src := r.R == 'S' || (r.R == 'D' && (e.Fmt == "SOPK" || strings.HasPrefix(e.Name, "s_bitset")))
+		if src && o.Kind == isaspec.KVCCHi {
+			q |= isaspec.QVCCHiRead
+			sigs = append(sigs, "emu.Wavefront/ReadOperand/vcc_hi/returns-vcc_lo")
+		}
+		if src && o.Kind == isaspec.KFloat && r.Bits == 64 {
+			q |= isaspec.QFloatConst32
+			sigs = append(sigs, "emu.Wavefront/ReadOperand/inline-float-constant-in-64-bit-operand/single-precision-bits")
+		}
+		if src && o.Kind == isaspec.KVCCLo && r.Bits == 32 {
+			q |= isaspec.QVCCLoRead64
+			sigs = append(sigs, "emu.Wavefront/ReadOperand/vcc_lo/returns-64-bit-vcc")
+		}
+	}
+	return
+}
+
+// model runs the specification with a deviation switched on and reports
+// whether it reproduces the implementation's complete post-state.
+func (t *task) model(pre *isaspec.State, d *Deviant, q int) bool {
+	return t.modelIn(t.in, pre, d, q) == ""
+}
+
+// modelIn returns "" when the model reproduces the implementation, "unmapped"
+// when the model's memory access faults, "no" otherwise.
+func (t *task) modelIn(in *isaspec.Instr, pre *isaspec.State, d *Deviant, q int) string {
+	de := *t.e
+	if d != nil {
+		if d.S != nil {
+			de.S = d.S
+		}
+		if d.V != nil {
+			de.V = d.V
+		}
+		if d.Pat != "" {
+			de.Pat = isaspec.Pat(d.Pat)
+		}
+		if d.M != nil {
+			de.M = d.M
+		}
+		de.SDWAQuirk = d.SDWA
+		q |= d.Quirk
+	}
+	t.prep(&t.dev, pre)
+	t.dev.Quirk = q
+	pre.Quirk = q
+	dx := isaspec.Exec(in, &de, pre, &t.dev)
+	pre.Quirk = 0
+	t.dev.Quirk = 0
+	if dx.Unsupported != "" {
+		if dx.Unsupported == "unmapped address" {
+			return "unmapped"
+		}
+		return "no"
+	}
+	dx.Resolve(&t.got)
+	if t.dev.Equal(&t.got) {
+		return ""
+	}
+	return "no"
+}
+
+// withoutClamp is the instruction with its clamp modifier removed.
+func withoutClamp(in *isaspec.Instr) *isaspec.Instr {
+	c := *in
+	c.Mods = map[string]string{}
+	for k, v := range in.Mods {
+		if k != "clamp" {
+			c.Mods[k] = v
+		}
+	}
+	return &c
+}
+
+// classify turns a disagreement into signatures (one per wrong component)
+// and a lazily built message.
+func (t *task) classify(pre *isaspec.State, x *isaspec.Expect, pm, stray string) ([]string, func() string) {
 	prefix := t.key + "/"
-	head := fmt.Sprintf("%s  [%s, bytes %x]  manual: GCN3 ISA p. %s\n", t.form.Text, t.ar.arch, t.form.Bytes, t.e.Page)
-	inputs := t.describeInputs(pre, &t.post, &t.got)
+	head := func() string {
+		return fmt.Sprintf("%s  [%s, bytes %x]  manual: GCN3 ISA p. %s\n", t.form.Text, t.ar.arch, t.form.Bytes, t.e.Page) +
+			t.describeInputs(pre, &t.post, &t.got)
+	}
+	d := deviants[t.ar.arch.String()+"/"+t.in.Mnem]
+	if d == nil {
+		d = deviants["both/"+t.in.Mnem]
+	}
 	if pm != "" {
+		msg := func() string { return head() + "implementation panics: " + pm }
 		if m := regTypeRe.FindStringSubmatch(pm); m != nil {
-			return []string{"emu.Wavefront/register-" + m[1] + "-not-supported"},
-				head + inputs + "implementation panics: " + pm
+			named := false
+			for _, o := range t.in.Ops {
+				if strings.ReplaceAll(o.Text, "_", "") == m[1] || strings.ReplaceAll(strings.TrimPrefix(o.Text, "src_"), "_", "") == m[1] {
+					named = true
+				}
+			}
+			if named {
+				return []string{"emu.Wavefront/register-" + m[1] + "-not-supported"}, msg
+			}
+			if t.e.Fmt == "SMEM" && m[1] == "tma" {
+				return []string{"insts.Disassembler/decodeSMEM/offset-m0-decoded-as-register-tma"}, msg
+			}
+			return []string{prefix + "decoded-operand-register-" + m[1] + "-not-supported"}, msg
 		}
-		// a known deviation may be "panics for these inputs"
-		if d := deviant(t.ar.arch, t.in, t.e); d != nil && d.PanicIf != nil && d.PanicIf(t, pre) {
-			return []string{prefix + d.PanicCause}, head + inputs + "implementation panics: " + pm
+		if d != nil && d.PanicIf != nil && d.PanicIf(t, pre) {
+			return []string{prefix + d.PanicCause}, msg
 		}
-		return []string{prefix + "panic-" + slug(pm)}, head + inputs + "implementation panics: " + pm
+		if d != nil && d.M != nil && strings.Contains(pm, "page not found") && t.modelIn(t.in, pre, d, 0) == "unmapped" {
+			// the address the implementation computes (per the recorded deviation) is not mapped
+			c := d.Causes["fault"]
+			if strings.HasPrefix(c, "=") {
+				return []string{strings.ReplaceAll(c[1:], "{key}", t.ar.arch.String()+"/"+t.in.Mnem)}, msg
+			}
+			return []string{prefix + c}, msg
+		}
+		return []string{prefix + "panic-" + slug(pm)}, msg
 	}
 	comps, detail := t.post.Diff(&t.got)
-	msg := head + inputs + "expected vs got: " + detail
-	if stray != "" {
-		msg += " stray effect: " + stray
+	extra := ""
+	msg := func() string {
+		m := head() + "expected vs got: " + detail
+		if stray != "" {
+			m += " stray effect: " + stray
+		}
+		return m + extra
 	}
 	cats := map[string]string{} // category -> first component
 	for _, c := range comps {
@@ -288,36 +407,60 @@ func (t *task) classify(pre *isaspec.State, x *isaspec.Expect, pm, stray string)
 		}
 	}
 	// does a recorded deviation model reproduce the implementation exactly?
-	if d := deviant(t.ar.arch, t.in, t.e); d != nil && stray == "" && (d.S != nil || d.V != nil || d.Quirk != 0) {
-		de := *t.e
-		if d.S != nil {
-			de.S = d.S
+	if stray == "" {
+		q, qsigs := quirksFor(t.in, t.e)
+		clampSig := t.ar.arch.String() + "/" + t.fmtN + "/clamp-modifier-ignored/" + t.in.Mnem
+		hasD := d != nil && (d.S != nil || d.V != nil || d.Quirk != 0 || d.M != nil || d.Pat != "" || d.SDWA != "")
+		if t.in.Has("clamp") && t.modelIn(withoutClamp(t.in), pre, nil, q) == "" {
+			extra = "\n(implementation equals the specification of the same instruction without the clamp modifier)"
+			return []string{clampSig}, msg
 		}
-		if d.V != nil {
-			de.V = d.V
+		if q != 0 && t.model(pre, nil, q) {
+			extra = "\n(implementation equals the specification with the recorded register-file deviation)"
+			sort.Strings(qsigs)
+			return qsigs, msg
 		}
-		t.prep(&t.dev, pre)
-		t.dev.Quirk = d.Quirk
-		dx := isaspec.Exec(t.in, &de, pre, &t.dev)
-		if dx.Unsupported == "" {
-			dx.Resolve(&t.got)
-			t.dev.Quirk = 0
-			if t.dev.Equal(&t.got) {
-				var sigs []string
-				for k := range cats {
-					c, ok := d.Causes[k]
-					if !ok {
-						c = k + "-as-recorded-deviation"
-					}
-					if strings.HasPrefix(c, "=") { // absolute signature (shared defect)
-						sigs = append(sigs, c[1:])
-					} else {
-						sigs = append(sigs, prefix+c)
+		inEff := t.in
+		var sigs []string
+		matched := hasD && t.model(pre, d, 0)
+		if !matched && hasD && t.in.Has("clamp") && t.modelIn(withoutClamp(t.in), pre, d, 0) == "" {
+			matched = true
+			inEff = withoutClamp(t.in)
+			sigs = append(sigs, clampSig)
+		}
+		if matched {
+			// categories the opcode deviation is responsible for: those that differ
+			// between the implementation and the model without the opcode deviation
+			dc := cats
+			if q != 0 || inEff != t.in {
+				t.modelIn(inEff, pre, nil, q)
+				if q != 0 {
+					t.prep(&t.post, pre)
+					isaspec.Exec(inEff, t.e, pre, &t.post).Resolve(&t.got)
+					if !t.dev.Equal(&t.post) {
+						sigs = append(sigs, qsigs...)
 					}
 				}
-				sort.Strings(sigs)
-				return sigs, msg + "\n(implementation equals the recorded deviation model: " + d.What + ")"
+				cc, _ := t.dev.Diff(&t.got)
+				dc = map[string]string{}
+				for _, k := range cc {
+					dc[t.category(k, pre)] = k
+				}
 			}
+			for k := range dc {
+				cause, ok := d.Causes[k]
+				if !ok {
+					cause = k + "-as-recorded-deviation"
+				}
+				if strings.HasPrefix(cause, "=") {
+					sigs = append(sigs, strings.ReplaceAll(cause[1:], "{key}", t.ar.arch.String()+"/"+t.in.Mnem))
+				} else {
+					sigs = append(sigs, prefix+cause)
+				}
+			}
+			extra = "\n(implementation equals the recorded deviation model: " + d.What + ")"
+			sort.Strings(sigs)
+			return sigs, msg
 		}
 	}
 	var sigs []string
@@ -329,6 +472,42 @@ func (t *task) classify(pre *isaspec.State, x *isaspec.Expect, pm, stray string)
 	}
 	sort.Strings(sigs)
 	return sigs, msg
+}
+
+// maskOverlap reports whether a mask destination ('C') shares state with a
+// uniform source operand of a vector instruction.
+func (t *task) maskOverlap() string {
+	if t.e.Class != isaspec.CVector || len(t.e.Pat) != len(t.in.Ops) {
+		return ""
+	}
+	for i, r := range t.e.Pat {
+		if r.R != 'C' {
+			continue
+		}
+		c := t.in.Ops[i]
+		for j, s := range t.e.Pat {
+			if s.R != 'S' {
+				continue
+			}
+			o := t.in.Ops[j]
+			switch {
+			case isVccKind(c.Kind) && isVccKind(o.Kind):
+				return "vcc"
+			case isExecKind(c.Kind) && isExecKind(o.Kind):
+				return "exec"
+			case c.Kind == isaspec.KSGPR && o.Kind == isaspec.KSGPR && o.Idx >= c.Idx && o.Idx < c.Idx+2:
+				return "sgpr"
+			}
+		}
+		if t.e.Cmpx {
+			for j, s := range t.e.Pat {
+				if s.R == 'S' && isExecKind(t.in.Ops[j].Kind) {
+					return "exec"
+				}
+			}
+		}
+	}
+	return ""
 }
 
 // relation of (pre, expected, got) for one component.
@@ -382,7 +561,7 @@ func (t *task) relation(comp string, pre *isaspec.State) string {
 	case e == p && g != p:
 		return "clobbered"
 	}
-	if comp[0] == 'v' && t.e.Class == isaspec.CVector {
+	if comp[0] == 'v' && comp != "vcc" && t.e.Class == isaspec.CVector {
 		// wrong only in lanes that are switched off?
 		var n int
 		fmt.Sscan(comp[1:], &n)
